@@ -9,6 +9,7 @@ import (
 
 	"golang.org/x/tools/go/ssa"
 
+	"tinkverif/consteval"
 	"tinkverif/core"
 	"tinkverif/effects"
 	"tinkverif/guard"
@@ -134,6 +135,31 @@ func c11(c *Ctx) {
 	// ---------------------------------------------------------------- C11.primary / C11.single
 	for _, w := range stateWrites {
 		base, field, val, ok := guard.StoreField(w.ins)
+		if ok && core.TypeID(base.Type()) == "keyset.Manager" && field == "entries" {
+			// census of updates of the entries slice: only the forms the add / remove rules below decide
+			form := ""
+			if call, _ := guard.CallOf(val); call != nil {
+				switch guard.CalleeName(&call.Call) {
+				case "append":
+					if isLoadOfField(call.Call.Args[0], "entries") {
+						form = "append(km.entries, e)"
+					} else if removalByAppend(call) != nil {
+						form = "append(km.entries[:i], km.entries[i+1:]...)"
+					}
+				case "slices.Delete", "slices.DeleteFunc":
+					if isLoadOfField(call.Call.Args[0], "entries") {
+						form = "slices.Delete(km.entries, i, i+1)"
+					}
+				}
+			}
+			key := fmt.Sprintf("C11.primary/%s/%s form", core.FuncID(w.fn), w.desc)
+			if form == "" {
+				r.Unknown("C11.primary", key, p.Pos(w.ins.Pos()), "the entries slice is replaced by a value that is neither an append of one entry nor the removal of one index: the add/remove rules cannot decide this update")
+			} else {
+				r.Ok("C11.primary", key, p.Pos(w.ins.Pos()), "recognised update: "+form)
+			}
+			continue
+		}
 		if !ok || core.TypeID(base.Type()) != "keyset.entry" {
 			continue
 		}
@@ -144,7 +170,7 @@ func c11(c *Ctx) {
 				continue // clearing: always allowed
 			}
 			key := fmt.Sprintf("C11.primary/%s/isPrimary=true", fid)
-			if hasFieldFact(guard.InstrFacts(w.ins), base, "status", token.EQL, enabled) {
+			if statusSubset(p, guard.InstrFacts(w.ins), base, enabled) {
 				r.Ok("C11.primary", key, p.Pos(w.ins.Pos()), "dominated by status == Enabled of the same entry")
 			} else {
 				r.Bad("C11.primary", key, p.Pos(w.ins.Pos()), "an entry is made primary without a dominating check that its status is Enabled")
@@ -156,14 +182,14 @@ func c11(c *Ctx) {
 			if isConstEq(val, enabled) {
 				// Enable: only Disabled/Enabled entries
 				ok := everyPathHas(w.ins.Block(), func(fs []guard.Fact) bool {
-					return hasFieldFact(fs, base, "status", token.EQL, disabled) || hasFieldFact(fs, base, "status", token.EQL, enabled)
+					return statusSubset(p, fs, base, enabled, disabled)
 				})
 				r.Check(ok, "C11.primary", key, p.Pos(w.ins.Pos()), "status set to Enabled for an entry not known to be Disabled or Enabled (a Destroyed/Unknown key could be revived)", "every path has status==Disabled or status==Enabled")
 				continue
 			}
 			okP := hasFieldFactBool(facts, base, "isPrimary", false)
 			okS := everyPathHas(w.ins.Block(), func(fs []guard.Fact) bool {
-				return hasFieldFact(fs, base, "status", token.EQL, disabled) || hasFieldFact(fs, base, "status", token.EQL, enabled)
+				return statusSubset(p, fs, base, enabled, disabled)
 			})
 			switch {
 			case !okP:
@@ -184,11 +210,21 @@ func c11(c *Ctx) {
 			}
 			name := guard.CalleeName(&call.Call)
 			fid := core.FuncID(m)
+			var removedIdx ssa.Value
 			switch name {
 			case "slices.Delete", "slices.DeleteFunc":
 				if !isLoadOfField(call.Call.Args[0], "entries") {
 					return
 				}
+				removedIdx = call.Call.Args[1]
+			case "append":
+				if hi := removalByAppend(call); hi != nil {
+					removedIdx = hi
+					name = "removal-by-append"
+				}
+			}
+			switch name {
+			case "slices.Delete", "slices.DeleteFunc", "removal-by-append":
 				key := fmt.Sprintf("C11.primary/%s/remove entry", fid)
 				// the removed index must be findEntry's index for the entry proven non-primary
 				okFact := false
@@ -198,7 +234,7 @@ func c11(c *Ctx) {
 						continue
 					}
 					ec, ei := guard.CallOf(b)
-					ic, ii := guard.CallOf(call.Call.Args[1])
+					ic, ii := guard.CallOf(removedIdx)
 					if ec != nil && ec == ic && ei == 0 && ii == 1 && guard.CalleeName(&ec.Call) == core.ModPath+"/keyset.findEntry" {
 						okFact = true
 					}
@@ -248,6 +284,34 @@ func c11(c *Ctx) {
 						predOK = true
 					}
 				}
+			}
+		}
+		// alternative form: a range loop returning (e, i, nil) under e.fixedID == keyID
+		if !(ok && predOK) {
+			altOK := true
+			nSucc := 0
+			for _, ret := range guard.SuccessReturns(fe) {
+				nSucc++
+				good := false
+				if len(ret.Results) == 3 {
+					if ia := elemOfRangeAny(ret.Results[0]); ia != nil && guard.Strip(ia.X) == ssa.Value(fe.Params[0]) && guard.Strip(ia.Index) == guard.Strip(ret.Results[1]) {
+						for _, f := range guard.BlockFacts(ret.Block()) {
+							if op, x, y, isC := guard.Cmp(f); isC && op == token.EQL {
+								for _, pr := range [][2]ssa.Value{{x, y}, {y, x}} {
+									if b, fld, isF := guard.FieldOf(pr[0]); isF && fld == "fixedID" && sameObj(b, ret.Results[0]) && guard.Strip(pr[1]) == ssa.Value(fe.Params[1]) {
+										good = true
+									}
+								}
+							}
+						}
+					}
+				}
+				if !good {
+					altOK = false
+				}
+			}
+			if altOK && nSucc > 0 {
+				ok, predOK = true, true
 			}
 		}
 		r.Check(ok && predOK, "C11.find", "C11.find/keyset.findEntry", p.FuncPos(fe), "findEntry no longer returns entries[i] for the index whose fixedID equals the requested ID (with -1 rejected)", "returns entries[i], i != -1, predicate e.fixedID == keyID")
@@ -300,6 +364,88 @@ func hasFieldFact(facts []guard.Fact, base ssa.Value, field string, op token.Tok
 	return false
 }
 
+// statusSubset: the facts restrict base.status to a subset of allowed. The
+// facts understood: status ==/!= constant, and the verdict of a boolean helper
+// of the package applied to base.status (folded over every KeyStatus constant).
+func statusSubset(p *core.Program, facts []guard.Fact, base ssa.Value, allowed ...constant.Value) bool {
+	// domain: the declared KeyStatus constants
+	pk := p.ByPath[core.ModPath+"/keyset"]
+	if pk == nil {
+		return false
+	}
+	var dom []constant.Value
+	for _, n := range pk.Types.Scope().Names() {
+		if cst, ok := pk.Types.Scope().Lookup(n).(*types.Const); ok {
+			if nt := core.NamedOf(cst.Type()); nt != nil && nt.Obj().Name() == "KeyStatus" {
+				dom = append(dom, cst.Val())
+			}
+		}
+	}
+	if len(dom) == 0 {
+		return false
+	}
+	possible := map[string]bool{}
+	for _, k := range dom {
+		possible[k.ExactString()] = true
+	}
+	isStatusOf := func(v ssa.Value) bool {
+		b, fld, ok := guard.FieldOf(v)
+		return ok && fld == "status" && sameObj(b, base)
+	}
+	ev := consteval.New()
+	for _, f := range facts {
+		if op, x, y, ok := guard.Cmp(f); ok && (op == token.EQL || op == token.NEQ) {
+			var kv ssa.Value
+			switch {
+			case isStatusOf(x):
+				kv = y
+			case isStatusOf(y):
+				kv = x
+			default:
+				continue
+			}
+			k, isK := guard.Strip(kv).(*ssa.Const)
+			if !isK || k.Value == nil {
+				continue
+			}
+			for _, d := range dom {
+				eq := constant.Compare(d, token.EQL, k.Value)
+				if (op == token.EQL) != eq {
+					delete(possible, d.ExactString())
+				}
+			}
+			continue
+		}
+		if call, val, ok := guard.BoolCallFact(f); ok && len(call.Call.Args) == 1 && isStatusOf(call.Call.Args[0]) {
+			g := call.Call.StaticCallee()
+			if g == nil || g.Blocks == nil {
+				continue
+			}
+			for _, d := range dom {
+				outs, okE := ev.Eval(g, []consteval.Val{{K: consteval.Const, C: d}}, nil)
+				if !okE || len(outs) != 1 || len(outs[0].Results) != 1 || outs[0].Results[0].K != consteval.Const {
+					continue // cannot fold: no information
+				}
+				if constant.BoolVal(outs[0].Results[0].C) != val {
+					delete(possible, d.ExactString())
+				}
+			}
+		}
+	}
+	for k := range possible {
+		in := false
+		for _, a := range allowed {
+			if a.ExactString() == k {
+				in = true
+			}
+		}
+		if !in {
+			return false
+		}
+	}
+	return true
+}
+
 // everyPathHas: every acyclic path from entry to block b satisfies pred on
 // its facts.
 func everyPathHas(b *ssa.BasicBlock, pred func([]guard.Fact) bool) bool {
@@ -313,6 +459,27 @@ func everyPathHas(b *ssa.BasicBlock, pred func([]guard.Fact) bool) bool {
 		}
 	}
 	return true
+}
+
+// removalByAppend recognises append(km.entries[:i] or [:i:i], km.entries[i+1:]...)
+// and returns i.
+func removalByAppend(call *ssa.Call) ssa.Value {
+	if len(call.Call.Args) != 2 {
+		return nil
+	}
+	a, ok1 := guard.Strip(call.Call.Args[0]).(*ssa.Slice)
+	b, ok2 := guard.Strip(call.Call.Args[1]).(*ssa.Slice)
+	if !ok1 || !ok2 || !isLoadOfField(a.X, "entries") || !isLoadOfField(b.X, "entries") || a.Low != nil || a.High == nil || b.Low == nil || b.High != nil {
+		return nil
+	}
+	bo, isB := b.Low.(*ssa.BinOp)
+	if !isB || bo.Op != token.ADD {
+		return nil
+	}
+	if k, isK := guard.ConstInt(bo.Y); !isK || k != 1 || !guard.SameValue(bo.X, a.High) {
+		return nil
+	}
+	return a.High
 }
 
 func isLoadOfField(v ssa.Value, field string) bool {
@@ -637,6 +804,29 @@ func idNoted(id ssa.Value, at *ssa.BasicBlock, depth int) (bool, string) {
 			found = true
 		}
 	})
+	// recorded by a reservation helper: a call that always leaves the ID recorded
+	// dominates, or its true verdict holds here
+	allInstrs(at.Parent(), func(ins ssa.Instruction) {
+		call, ok := ins.(*ssa.Call)
+		if !ok {
+			return
+		}
+		g := call.Call.StaticCallee()
+		sum, has := c11Reserve[g]
+		if g == nil || !has || len(call.Call.Args) <= sum.idArg || !guard.SameValue(call.Call.Args[sum.idArg], id) {
+			return
+		}
+		if sum.alwaysNoted && (call.Block() == at || call.Block().Dominates(at)) {
+			found = true
+		}
+		if sum.trueNoted {
+			for _, f := range guard.BlockFacts(at) {
+				if c2, val, isB := guard.BoolCallFact(f); isB && val && c2 == call {
+					found = true
+				}
+			}
+		}
+	})
 	if found {
 		return true, ""
 	}
@@ -654,6 +844,26 @@ func idNoted(id ssa.Value, at *ssa.BasicBlock, depth int) (bool, string) {
 // lookupFoundFact: fact about `_, found := unavailableKeyIDs[id]`: returns +1
 // (found), -1 (not found), 0 (unrelated).
 func lookupFoundFact(f guard.Fact, id ssa.Value) int {
+	// value form: `if unavailableKeyIDs[id]` (only true is ever stored — census (a))
+	if lk, ok := f.Cond.(*ssa.Lookup); ok && !lk.CommaOk && isUnavailMap(lk.X) && guard.SameValue(lk.Index, id) {
+		if f.True {
+			return 1
+		}
+		return -1
+	}
+	// verdict of a reservation helper: true means "was absent, is now recorded"
+	if call, val, ok := guard.BoolCallFact(f); ok {
+		if g := call.Call.StaticCallee(); g != nil {
+			if sum, has := c11Reserve[g]; has && len(call.Call.Args) > sum.idArg && guard.SameValue(call.Call.Args[sum.idArg], id) {
+				if val && sum.trueAbsent {
+					return -1
+				}
+				if !val && sum.falseFound {
+					return 1
+				}
+			}
+		}
+	}
 	ex, ok := f.Cond.(*ssa.Extract)
 	if !ok || ex.Index != 1 {
 		return 0
@@ -709,8 +919,82 @@ var lastStoreIns ssa.Instruction
 // before the append sites are examined)
 var c11NewRandomAbsent, c11NewRandomRecords bool
 
+// reserveSum summarises a helper `func (km *Manager) reserve(id uint32) bool`
+// of package keyset that tests and records an ID in unavailableKeyIDs.
+type reserveSum struct {
+	idArg       int  // index of the id among the call arguments
+	trueAbsent  bool // a true verdict implies the ID was absent before the call
+	trueNoted   bool // a true verdict implies the ID is recorded now
+	falseFound  bool // a false verdict implies the ID was already recorded
+	alwaysNoted bool // after the call the ID is recorded whatever the verdict
+}
+
+var c11Reserve map[*ssa.Function]reserveSum
+
+func c11ReserveSummaries(p *core.Program) {
+	c11Reserve = map[*ssa.Function]reserveSum{}
+	for _, g := range pkgFuncs(p, "keyset") {
+		res := g.Signature.Results()
+		if g.Parent() != nil || res.Len() != 1 {
+			continue
+		}
+		if bt, ok := res.At(0).Type().Underlying().(*types.Basic); !ok || bt.Kind() != types.Bool {
+			continue
+		}
+		idArg := -1
+		for i, prm := range g.Params {
+			if bt, ok := prm.Type().Underlying().(*types.Basic); ok && bt.Kind() == types.Uint32 {
+				idArg = i
+			}
+		}
+		touches := false
+		allInstrs(g, func(ins ssa.Instruction) {
+			switch x := ins.(type) {
+			case *ssa.MapUpdate:
+				touches = touches || isUnavailMap(x.Map)
+			case *ssa.Lookup:
+				touches = touches || isUnavailMap(x.X)
+			}
+		})
+		if idArg < 0 || !touches {
+			continue
+		}
+		id := ssa.Value(g.Params[idArg])
+		sum := reserveSum{idArg: idArg, trueAbsent: true, trueNoted: true, falseFound: true, alwaysNoted: true}
+		for _, ret := range guard.Returns(g) {
+			absent, found, noted := false, false, false
+			for _, f := range guard.BlockFacts(ret.Block()) {
+				switch lookupFoundFact(f, id) {
+				case -1:
+					absent = true
+				case 1:
+					found = true
+				}
+			}
+			allInstrs(g, func(ins ssa.Instruction) {
+				if mu, ok := ins.(*ssa.MapUpdate); ok && isUnavailMap(mu.Map) && guard.Strip(mu.Key) == id && (mu.Block() == ret.Block() || mu.Block().Dominates(ret.Block())) {
+					if b, isC := guard.ConstBool(mu.Value); isC && b {
+						noted = true
+					}
+				}
+			})
+			verdict, isC := guard.ConstBool(ret.Results[0])
+			if !isC || verdict {
+				sum.trueAbsent = sum.trueAbsent && absent
+				sum.trueNoted = sum.trueNoted && noted
+			}
+			if !isC || !verdict {
+				sum.falseFound = sum.falseFound && found
+			}
+			sum.alwaysNoted = sum.alwaysNoted && (noted || found)
+		}
+		c11Reserve[g] = sum
+	}
+}
+
 func c11IDs(c *Ctx, methods []*ssa.Function) {
 	p, r := c.P, c.R
+	c11ReserveSummaries(p)
 	// (a) census of unavailableKeyIDs: only grows
 	n := 0
 	for _, f := range pkgFuncs(p, "keyset") {
@@ -763,6 +1047,11 @@ func c11IDs(c *Ctx, methods []*ssa.Function) {
 					}
 				}
 			})
+			if !recorded {
+				if okN, _ := idNoted(id, ret.Block(), 0); okN {
+					recorded = true
+				}
+			}
 			call, _ := guard.CallOf(id)
 			fromRand := call != nil && strings.HasSuffix(guard.CalleeName(&call.Call), "random.GetRandomUint32")
 			key := "C11.ids/(*keyset.Manager).newRandomKeyID/return"
@@ -811,14 +1100,56 @@ func c11IDs(c *Ctx, methods []*ssa.Function) {
 			}
 			ok = true
 		})
+		if !ok {
+			// seeding through a reservation helper that always leaves the ID recorded
+			allInstrs(f, func(ins ssa.Instruction) {
+				call, isCall := ins.(*ssa.Call)
+				if !isCall {
+					return
+				}
+				sum, has := c11Reserve[call.Call.StaticCallee()]
+				if !has || !sum.alwaysNoted || len(call.Call.Args) <= sum.idArg {
+					return
+				}
+				b, fld, isF := guard.FieldOf(call.Call.Args[sum.idArg])
+				if !isF || fld != "fixedID" {
+					return
+				}
+				ia := elemOfRange(b)
+				if ia == nil {
+					return
+				}
+				rl := rangeLoopOf(ia)
+				if rl == nil || !rl.Complete || !isLoadOfField(ia.X, "entries") {
+					return
+				}
+				for _, fct := range guard.BlockFacts(ins.Block()) {
+					if blk := fct.Cond.(ssa.Instruction).Block(); blk != rl.Header && rl.Blocks[blk] {
+						why = "seeding of unavailableKeyIDs is conditional inside the loop"
+						return
+					}
+				}
+				ok = true
+			})
+		}
 		r.Check(ok, "C11.ids", "C11.ids/keyset.NewManagerFromHandle/seed", p.FuncPos(f), why, "complete range loop records every entry's fixedID")
 		// fromKeysetEntries copies keyID -> fixedID
 		if g := p.PkgFunc("keyset", "fromKeysetEntries"); g != nil {
 			okc := false
+			scan := func(fn *ssa.Function) {
+				allInstrs(fn, func(ins ssa.Instruction) {
+					if _, field, val, isS := guard.StoreField(ins); isS && field == "fixedID" {
+						if _, f2, isF := guard.FieldOf(val); isF && f2 == "keyID" {
+							okc = true
+						}
+					}
+				})
+			}
+			scan(g)
 			allInstrs(g, func(ins ssa.Instruction) {
-				if _, field, val, isS := guard.StoreField(ins); isS && field == "fixedID" {
-					if _, f2, isF := guard.FieldOf(val); isF && f2 == "keyID" {
-						okc = true
+				if call, isCall := ins.(*ssa.Call); isCall {
+					if h := call.Call.StaticCallee(); h != nil && h.Blocks != nil && h.Pkg == g.Pkg {
+						scan(h)
 					}
 				}
 			})
@@ -869,21 +1200,52 @@ func c11IDs(c *Ctx, methods []*ssa.Function) {
 		}
 		raw, okRaw := constOf(p, "proto/tink_go_proto", "OutputPrefixType_RAW")
 		nsites := 0
+		// key creation sites: in Add itself or in a helper of the package it calls
+		// (then the helper's parameter stands for Add's argument)
+		type csite struct {
+			ins  *ssa.Call
+			name string
+			arg  ssa.Value
+		}
+		var csites []csite
+		collect := func(fn *ssa.Function, subst map[ssa.Value]ssa.Value) {
+			allInstrs(fn, func(ins ssa.Instruction) {
+				call, ok := ins.(*ssa.Call)
+				if !ok {
+					return
+				}
+				name := guard.CalleeName(&call.Call)
+				var arg ssa.Value
+				switch {
+				case strings.HasSuffix(name, "keygenregistry.CreateKey"):
+					arg = call.Call.Args[1]
+				case strings.HasSuffix(name, "protoserialization.NewKeySerialization"):
+					arg = call.Call.Args[2]
+				default:
+					return
+				}
+				if a, has := subst[guard.Strip(arg)]; has {
+					arg = a
+				}
+				csites = append(csites, csite{call, name, arg})
+			})
+		}
+		collect(m, nil)
 		allInstrs(m, func(ins ssa.Instruction) {
-			call, ok := ins.(*ssa.Call)
-			if !ok {
-				return
+			if call, ok := ins.(*ssa.Call); ok {
+				if g := call.Call.StaticCallee(); g != nil && g.Blocks != nil && g.Pkg == m.Pkg && g != m {
+					subst := map[ssa.Value]ssa.Value{}
+					for i, prm := range g.Params {
+						if i < len(call.Call.Args) {
+							subst[prm] = call.Call.Args[i]
+						}
+					}
+					collect(g, subst)
+				}
 			}
-			name := guard.CalleeName(&call.Call)
-			var arg ssa.Value
-			switch {
-			case strings.HasSuffix(name, "keygenregistry.CreateKey"):
-				arg = call.Call.Args[1]
-			case strings.HasSuffix(name, "protoserialization.NewKeySerialization"):
-				arg = call.Call.Args[2]
-			default:
-				return
-			}
+		})
+		for _, cs := range csites {
+			ins, name, arg := cs.ins, cs.name, cs.arg
 			nsites++
 			key := fmt.Sprintf("C11.ids/(*keyset.Manager).Add/idRequirement->%s", name[strings.LastIndex(name, ".")+1:])
 			phi, isPhi := guard.Strip(arg).(*ssa.Phi)
@@ -907,7 +1269,7 @@ func c11IDs(c *Ctx, methods []*ssa.Function) {
 				}
 			}
 			r.Check(good, "C11.ids", key, p.Pos(ins.Pos()), "Add does not pass exactly (keyID unless RAW, else 0) as the new key's ID requirement", "idRequirement = phi[0 if RAW, newRandomKeyID() otherwise]")
-		})
+		}
 		if nsites < 2 {
 			r.AnchorMissing("C11.ids", "key creation sites in Manager.Add")
 		}
@@ -1014,8 +1376,38 @@ func c11Isolation(c *Ctx) {
 		noPrimary, unk = false, false
 		for _, f := range guard.BlockFacts(ret.Block()) {
 			if op, x, y, ok := guard.Cmp(f); ok && op == token.NEQ && (guard.IsNilConst(y) || guard.IsNilConst(x)) {
+				if guard.IsNilConst(x) {
+					x = y
+				}
 				if _, isPhi := guard.Strip(x).(*ssa.Phi); isPhi {
 					noPrimary = true
+				}
+				// a search helper: every non-nil value it returns is an entry found primary
+				if call, _ := guard.CallOf(x); call != nil {
+					if g := call.Call.StaticCallee(); g != nil && g.Blocks != nil && g.Pkg == nf.Pkg {
+						all, some := true, false
+						for _, gr := range guard.Returns(g) {
+							if len(gr.Results) != 1 || guard.IsNilConst(gr.Results[0]) {
+								continue
+							}
+							some = true
+							prim := false
+							for _, gf := range guard.BlockFacts(gr.Block()) {
+								if b, fld, isF := guard.FieldOf(gf.Cond); isF && fld == "isPrimary" && gf.True && guard.SameValue(b, gr.Results[0]) {
+									prim = true
+								}
+								if pc, val, isB := guard.BoolCallFact(gf); isB && val && isEntryMethod(&pc.Call, "IsPrimary") && guard.SameValue(pc.Call.Args[0], gr.Results[0]) {
+									prim = true
+								}
+							}
+							if !prim {
+								all = false
+							}
+						}
+						if all && some {
+							noPrimary = true
+						}
+					}
 				}
 			}
 		}
@@ -1027,6 +1419,28 @@ func c11Isolation(c *Ctx) {
 			for _, f := range guard.BlockFacts(fr.Block()) {
 				if op, x, y, ok := guard.Cmp(f); ok && op == token.EQL && (isConstEq(y, unknown) || isConstEq(x, unknown)) {
 					unk = true
+				}
+				// slices.IndexFunc(entries, func(e) bool { return e.status == Unknown }) found something
+				if op, x, y, ok := guard.Cmp(f); ok {
+					ic, _ := guard.CallOf(x)
+					k, isK := guard.ConstInt(y)
+					foundSome := (op == token.GEQ && isK && k == 0) || (op == token.NEQ && isK && k == -1) || (op == token.GTR && isK && k == -1)
+					if ic != nil && foundSome && strings.HasPrefix(guard.CalleeName(&ic.Call), "slices.IndexFunc") && len(ic.Call.Args) == 2 {
+						var pred *ssa.Function
+						switch pv := guard.Strip(ic.Call.Args[1]).(type) {
+						case *ssa.Function:
+							pred = pv
+						case *ssa.MakeClosure:
+							pred, _ = pv.Fn.(*ssa.Function)
+						}
+						if pred != nil {
+							for _, pr := range guard.Returns(pred) {
+								if bo, isB := pr.Results[0].(*ssa.BinOp); isB && bo.Op == token.EQL && (isConstEq(bo.X, unknown) || isConstEq(bo.Y, unknown)) {
+									unk = true
+								}
+							}
+						}
+					}
 				}
 			}
 		}
